@@ -98,6 +98,7 @@ def prefixes(tier):
 SHAPES = [
     ('LL-2-2', L(L(I(), I(2))), L(L(I(2), I()))),
     ('LiL', L(I(), L(I(), I(2))), L(I(), L(I(2), I()))),       # the last matrix cell of the outer list edit is itself a list edit
+    ('LLs', L(L(I(), I()), I()), L(L(I(), I()), I())),         # a non-final matrix cell is a list edit (quiet-mode fringe loop)
     ('LL-11-11', L(L(I(2)), L(I())), L(L(I()), L(I(2)))),
     ('LD', L(D(I()), I()), L(D(I(2)), I(2))),
     ('DL2c', ('dict', [('p', L(I(), I(2))), ('q', L(I()))]), ('dict', [('r', L(I(2))), ('s', L(I(), I()))])),   # concrete, unshared keys
@@ -110,13 +111,15 @@ SHAPES = [
 
 def jobs(tier, seed):
     out = []
-    shapes = SHAPES if tier != 'quick' else [SHAPES[1], SHAPES[3], SHAPES[4]]      # LiL, LD, DL2c
+    shapes = SHAPES if tier != 'quick' else [SHAPES[1], SHAPES[2], SHAPES[4], SHAPES[5]]      # LiL, LLs, LD, DL2c
     for name, A, B_ in shapes:
         for quiet in (False, True):
-            if tier == 'quick' and quiet and not name.startswith('Li'):
+            if tier == 'quick' and quiet and not name.startswith(('Li', 'LLs')):
                 continue         # the quiet flag only changes control flow inside EditDistance.tighten_bounds
             for st in ('auto',) if tier == 'quick' else ('auto', 'none'):
                 for pre in prefixes(tier):
+                    if tier == 'quick' and name == 'LLs' and len(pre) > 1:
+                        continue
                     if tier == 'quick' and len(pre) == 3 and (quiet or not name.startswith('Li')):
                         continue
                     out.append(dict(fam=name, A=A, B=B_, dict=st, list='on', quiet=quiet, weight=len(pre) + 3, alpha=3,
@@ -140,11 +143,11 @@ META = dict(functions=th.TREE_FUNCTIONS + ["public edit API: bounds / tighten_bo
             stubs=th.TREE_STUBS, assumptions=th.TREE_ASSUME, files=th.TREE_FILES + ["graphtage/printer.py"],
             outside=["colour on/off (rendering is C06/C13's subject; it never runs before the script is final)",
                      "prefixes longer than the bound"])
-REGIONS = dict(mset_duplicates=lambda w, f: th.has_duplicate_members(w))
+REGIONS = dict(mset_duplicates=lambda w, f: th.matcher_collapse_region(w))
 
 
 def bounds_text(tier):
-    return ("3 (thorough 7) nested document shapes (list of lists, list of mappings, mapping of lists, mapping of mappings) with all "
+    return ("4 (thorough 9) nested document shapes (list of lists, list of mappings, mapping of lists, mapping of mappings) with all "
             "leaf values symbolic x every operation prefix of length <= 2 over the 6 public operations (quick: length-3 prefixes over "
             "{bounds, tighten_bounds, edits, has_non_zero_cost} and quiet on/off only on the list-of-lists shape; thorough: all length-3, "
             "active length-4, quiet on/off everywhere), 4-6 consecutive tighten_bounds; applied to the top-level edit and to the first / "
